@@ -2,7 +2,17 @@
 from facts import walk, callee_of, call_args, loc
 import hirq, anchors, absx
 
-EXPLANATION = ("V1 positional decode (path-sensitive abstract evaluation with a generic attribute and a generic value): the entry must be "
+EXPLANATION = ("V2.value-lists-exact, the function from the value list of an attribute to the two maps, decided by exact literal evaluation: `construct` is "
+               "interpreted on literal entries (element trees; the tree accessors inlined; element vectors, local vectors and the two maps - as association "
+               "lists of known keys - tracked exactly; the UTF-8 tests decided on the literal octets), one per member of a finite partition of value lists: "
+               "0, 1, 2, 3 values, each valid UTF-8 (the empty string, a multi-octet character) or not (an impossible octet, a truncated sequence, a stray "
+               "continuation octet), in every order, plus repeated values, plus entries with two attributes.  Judged is the single outcome: the attribute is "
+               "a key of exactly one map; of `attrs` exactly when every value is valid UTF-8 - an attribute without values included: the unchanged code "
+               "inserts it into `attrs` with an empty vector - with the values, decoded, in order; otherwise of `bin_attrs` with all its values as octets, "
+               "compared as a multiset (the property fixes no order for a non-text attribute; the unchanged code yields the non-UTF-8 values in the order "
+               "received, then the UTF-8 ones in the order received); dn is the objectName sent.  An evaluation that does not end in one outcome with "
+               "known map contents is an alarm (not decided).  "
+               "V1 positional decode (path-sensitive abstract evaluation with a generic attribute and a generic value): the entry must be "
                "tag 4 constructed, child 0 -> dn (UTF-8), child 1 -> attribute list; per attribute child 0 -> type (UTF-8), child 1 -> "
                "value set, each value a primitive; V2 an inductive argument over the values of one attribute, read from the enumerated "
                "paths of one generic iteration of the attribute loop.  What is carried from one value to the next (found by fixpoint) "
@@ -10,7 +20,9 @@ EXPLANATION = ("V1 positional decode (path-sensitive abstract evaluation with a 
                "tested for UTF-8 exactly once, in every state an earlier value can leave behind; if v is UTF-8 its decoded text is added "
                "to the text collection (the vector an iterator chain yields, or a local vector) and nothing else happens; if not, its "
                "bytes are pushed, unaltered, to bin_attrs[type] or to a local vector of binary values, and a flag, if there is one, is "
-               "true afterwards.  Completion (values exhausted, in the state the steps leave behind - this includes no values at all): "
+               "true afterwards.  Completion (values exhausted, in the state the steps leave behind; the attribute without values is decided by "
+               "V2.value-lists-exact - a generic path always has a value at hand, so one that claims the text collection holding that value is empty "
+               "is infeasible, and a path that knows the text collection to be empty may leave out appending it): "
                "if no value failed the only effect is that the text collection is inserted into `attrs` under the attribute type; if "
                "any value failed (flag / non-empty binary vector / v itself) the text collection is appended, as bytes, to "
                "bin_attrs[type], so is a local vector of binary values, and nothing is inserted into `attrs`.  The loop over the "
@@ -35,9 +47,11 @@ EXPLANATION = ("V1 positional decode (path-sensitive abstract evaluation with a 
 # hands `construct` a truncated value and misparses everything after it.  Decided by C07's B2 reader family (which form, how many
 # length octets, their big-endian value by exact literal evaluation for every octet count that occurs, Incomplete while they are missing).
 SHARED = [('C07', ('B7.',), 'V3.every-well-formed-entry-is-parsed'), ('C07', ('B2.reader',), 'V4.value-lengths-are-read-exactly')]
-TRUSTED = ['std iterator adapters (map, filter_map, collect) preserve order', 'HashMap entry API',
+TRUSTED = ['std iterator adapters (map, filter_map, collect) preserve order', 'HashMap entry API (rules/assocmap.py: one model per method, on maps whose keys are literals)',
+           'Python\'s strict UTF-8 decoder accepts exactly the octet strings core::str::from_utf8 accepts',
            'Iterator::{any, all, position, find} apply their predicate to the elements in order until the answer is certain; slice sort* / reverse permute']
-UNDECIDED = ['content equality of values', 'duplicate attribute types within one entry']
+UNDECIDED = ['content equality of values beyond the value lists of the partition (more than three values per attribute, other octet strings: covered by the inductive argument of the '
+             'generic rules only as far as placement goes)', 'duplicate attribute types within one entry']
 ASSUMPTIONS = ['a generic element stands for every element of a `for` / iterator chain (the loop body is the same for all)']
 
 P = 'ldap3::search::SearchEntry::construct'
